@@ -232,7 +232,12 @@ def apply_op(router, model, op, step):
     raise ValueError(op)
 
 
-def replay(history):
+TRAFFIC = ["a/b", "a/x", "a/x/c", "a/bc", "h/k", "ab", "f/1", "y"]
+
+
+def replay(history, traffic=True):
+    """the history on a new router.  A long-lived router serves requests between its edits: after every edit a few
+    concrete paths are resolved (since seed C11-j; whatever a lookup leaves behind in the router must follow later edits)"""
     router, model = RadiRouter(), Model()
     notes = []
     for i, op in enumerate(history):
@@ -240,7 +245,19 @@ def replay(history):
         if n is None:
             return None
         notes.append(n)
+        if traffic:
+            for p in TRAFFIC:
+                observe(router, p, ANYM)
     return router, model, notes
+
+
+def untraced(fn):
+    """run concrete set-up code outside the symbolic tracer (it is the same code either way, only faster)"""
+    from crosshair.tracers import NoTracing, is_tracing
+    if is_tracing():
+        with NoTracing():
+            return fn()
+    return fn()
 
 
 def fresh_from(model):
@@ -357,6 +374,9 @@ def make_query(history, N):
         if typed:
             for ch in path:
                 assume(ord(ch) < 128)
+        # every path is a process of its own: both routers are built again (a router may keep what a lookup leaves behind)
+        edited = untraced(lambda: replay(history)[0])
+        fresh = untraced(lambda: fresh_from(model))
         if wrong:
             return "history %r: %s (registration outcome per edit: %r)" % (history, wrong[0], notes)
         r = index_checks(edited, model)
@@ -428,7 +448,7 @@ def enumerate_states(depth, walks, walk_len, seed, limit):
             return False
         seen[s] = True
         fresh = fresh_from(model)
-        if router_sig(router) == router_sig(fresh) and index_checks(router, model) is None:
+        if router_sig(router) == router_sig(fresh) and index_checks(router, model) is None and not probe_differs(router, fresh):
             same[0] += 1
         else:
             bad = index_checks(router, model) is not None or probe_differs(router, fresh)
